@@ -170,6 +170,10 @@ def r_spawner_shape(ctx: Ctx, rule: str, names=("_apply_spawner", "_start_num"))
                 continue
             it = head.ast.iter
             ok = None
+            # `enumerate(X[, start])` / `reversed(X)` yield exactly as many items as X
+            while isinstance(it, ast.Call) and sc.callee(it).name in ("builtins.enumerate", "builtins.reversed") and it.args and not any(isinstance(a, ast.Starred) for a in it.args) \
+                    and all(k.arg == "start" for k in it.keywords):
+                it = it.args[0]
             if isinstance(it, ast.Call) and sc.callee(it).name == "builtins.range":
                 if len(it.args) == 1 and not it.keywords and expr_role(ctx, f, it.args[0]) == "NUM":
                     ok = True
